@@ -94,6 +94,12 @@ THEOREMS = {
     "C19_model_is_source_get_test_screen_from_job_output": "the whole helper (called by the translated retrospective step): it globs for training.screen.h5 = the model's has_training / SFile s KTraining",
     "C19_model_is_source_get_theta_and_dist_chunks": "the whole helper (called by both translated steps): ValueError unless thetas and distance chunks are both present = has_thetas_dist / AFail 2",
     "C19_model_is_source_get_selected_plates": "the whole helper (called by both translated steps): the contents of the selected_plate files of the iteration, None when there are none = selected_plates",
+    "C19_model_is_source_run_initial_plate": "the WHOLE builder run_initial_plate, re-translated on every run and CALLED by the translated run_next_retrospective_step: the command line it builds (list of words + extra args), read "
+                                             "the way main.nf reads it, is the launch LInit screen for job directory output_dir; a None screen is a TypeError before anything is started",
+    "C19_model_is_source_run_first_batch_plate": "the same for run_first_batch_plate: --training_screen gets training_screen, --test_screen gets test_screen, --initialize false = LFirst training test",
+    "C19_model_is_source_run_first_prospective_batch_plate": "the same for run_first_prospective_batch_plate: --mode prospective --screen S = LProsp S",
+    "C19_model_is_source_run_subsequent_batch_plate": "the same for run_subsequent_batch_plate (called by both translated steps): --mode next_plate --reveal true, --screen, the thetas / distance-matrix globs of one directory t, "
+                                                      "the optional --excludes word (none when excludes is None) = LNext S t excludes",
     "C19_model_is_source_main": "the WHOLE function main(), re-translated on every run (mode dispatch: which translated run_next_* the variable run_next holds; `while True` as recursion on explicit fuel; "
                                 "every call runs the translated function in the world; `if not should_run_again: break`): for fuel >= the number of times the loop body is started it equals the model's "
                                 "invocation for every tree, schedule, batch size - same final tree, remaining schedule, calls and end (returned / exception out of main() / observation ends)",
@@ -143,9 +149,18 @@ EXPLANATION = ("Model: Model/Orchestrate.v (calls: attempt/script_run; invocatio
                "glob 'plate_*/*/selected_plate' under an iteration = its recorded selections in plate order (glob order not modelled), len, l[0] (IndexError on []), open(path) / json.load / f.read().strip() = "
                "the value the file holds, the dict get_theta_and_dist_chunks returns = the directory it names.  run_next_*: os.path.splitext(os.path.basename(input_screen)) = an unmodelled name, "
                "meta['n_unobserved_plates'] = the metadata value, every read of the output directory = a read of the tree AFTER the actions done so far (tree_after); effects: shutil.rmtree(job dir) = ARmTree, "
-               "os.makedirs(job dir) = AMkIter then AMkPlate, run_initial_plate / run_first_batch_plate / run_first_prospective_batch_plate / run_subsequent_batch_plate = the launch of that command with those "
-               "arguments, or a TypeError when one of the path arguments is None (excludes=None = no --excludes); ignored: logger.info, os.makedirs(output_dir) (creation of the output directory itself is "
-               "not modelled); extra_args / experiment_name are only handed on.  MAIN (C19_model_is_source_main*): main() is re-translated as a whole function (configuration C19_MAIN -> Generated/SrcOrchMain.v, exception monad Orchestrate.mres whose "
+               "os.makedirs(job dir) = AMkIter then AMkPlate; t['thetas'] / t['dist_chunks'] = the two glob patterns under the directory t that get_theta_and_dist_chunks answered; the calls run_initial_plate / "
+               "run_first_batch_plate / run_first_prospective_batch_plate / run_subsequent_batch_plate(keyword arguments) are calls of the TRANSLATED builders (each keyword's value coerced to the builder's parameter type); "
+               "ignored: logger.info, os.makedirs(output_dir) (creation of the output directory itself is not modelled); extra_args / experiment_name are only handed on.  "
+               "COMMAND BUILDERS (C19_model_is_source_run_*): the four run_* functions are re-translated as whole functions (configurations C19_RUN_* -> Generated/SrcOrchCmd.v; translator key added: list_elem_type - "
+               "every item of a list literal is coerced to one declared type, here `option word`) and proved to build exactly the command lines that denote LInit / LFirst / LProsp / LNext, so the launch primitive the "
+               "run_next_* links used to trust (launch_cmd) is now a theorem.  From the translation: the order and content of the words, `+ extra_args`, `if excludes is not None: args = args + [...]`, the logged join, "
+               "check_call.  TRUSTED primitives of the builders: a string literal = WLit of its code points (18 literals, generated by one helper); get_main_nf_file() = the pipeline's main.nf; os.path.join(output_dir, "
+               "'work') = the job's work directory; a screen path / output_dir / experiment_name / a glob pattern used as a list item = the word of that value (None stays None); extra_args = opaque words that are "
+               "none of the script's own options; '--excludes={}'.format(','.join(ids)) = the word WExcludes ids; ' '.join(cmd) in the logged f-string = TypeError iff an item is None; subprocess.check_call(cmd, cwd=repository "
+               "root) = TypeError iff an item is None, otherwise the process is started and what it is is Orchestrate.launch_of_words: `nextflow run main.nf` + options, an option's value = the word after the first "
+               "occurrence of its key, params.mode / params.initialize select the workflow and its screen options as main.nf and workflows/.../retrospective_simulation/main.nf do, --outdir names the job directory, "
+               "--reveal true, thetas and distance-matrix globs under ONE directory, --excludes; anything else is no launch of the model (nextflow error).  -work-dir, --name and the extra words are not interpreted.  MAIN (C19_model_is_source_main*): main() is re-translated as a whole function (configuration C19_MAIN -> Generated/SrcOrchMain.v, exception monad Orchestrate.mres whose "
                "errors carry the world main() leaves behind; translator keys added: monad['while'] - a `while True` under a non-default monad, on explicit fuel -, tail_dup_raise - the statements after an `if` one of whose "
                "branches may raise are the tail of both branches) and proved equal to Orchestrate.invocation for sufficient fuel; the fuel hypothesis is discharged on reachable trees (n + 1 resp. batch-size "
                "iterations).  The if/elif/else on args.mode, the assignment of run_next, the loop, the call's keyword arguments (typed: output directory, screen, extra args, batch size), the negated test and the break come from "
@@ -155,7 +170,7 @@ EXPLANATION = ("Model: Model/Orchestrate.v (calls: attempt/script_run; invocatio
                "run_next(output_dir=, input_screen=, extra_args=, batch_size=) is in a world with crashes: the translated function is applied to the tree as it is now, its result (value + actions / exception after "
                "some actions / named directory) is played against the next crash-schedule entry by the rule of Orchestrate.attempt (exec_result; C19_model_is_source_main_call_is_attempt proves it IS attempt), the "
                "value reaches main() only if the call ran to its return, an empty schedule ends the observation.  "
-               "NOT translated: the four run_* command builders, dir_sort_key, get_args.")
+               "NOT translated: dir_sort_key, get_args, the path helpers get_main_nf_file / get_repository_root.")
 
 KINDS = ["training", "test", "thetas", "dist", "selected", "advanced", "meta"]
 FILES = ["training.screen.h5", "test.screen.h5", "thetas_0.h5", "distance_matrix_chunk_0.h5", "selected_plate",
